@@ -543,8 +543,10 @@ def hint_retargets_relation_with_changefield(case, outcome, atoms):
     if not trig:
         return atoms
     return [a for a in atoms
-            if not (a[0] == 'exception' and a[2] == 'EvolutionNotImplementedError' and
-                    'related_model' in str(a[4]))]
+            if not (a[0] == 'exception' and 'related_model' in str(a[4]) and
+                    (a[2] == 'EvolutionNotImplementedError' or
+                     (a[2] == 'AttributeError' and
+                      'change_column_attr_related_model' in str(a[4]))))]
 
 
 @explainer
